@@ -1,10 +1,15 @@
-(* C07: declarative description (over the syn-level AST) of the inputs on which the unchanged
-   front end reaches one of its partial operations.  [front_unsafe f = false] is the domain on which
-   the front end is proved panic-free; each disjunct is a recorded finding class. *)
+(* C07 (front end).  Since the /repo fixes of the front-end panic sites (parser.rs:287 / :445 / :737,
+   rust_types.rs:366-383, rename.rs:22) the front end has no reachable partial operation: the
+   panic-freedom theorems of Props/C07.v are UNCONDITIONAL and there is no `known` class for it.
+
+   What stays declarative here (over the syn-level AST) is the class of EDGE inputs that used to
+   panic and that the property wants DIAGNOSED: [leaf_complete it = false] means the annotated item
+   has, in a non-skipped position, a container / smart pointer written without its type argument(s)
+   (`Vec`, `HashMap<K>`, `Cow<'a>`; at any depth, also in a serialized_as string) or is an empty tuple
+   struct / has an empty tuple variant.  Props/C07.v proves that such an item is reported as an error
+   (never generated, never a panic); the check evaluates the same predicate against the real code. *)
 From Coq Require Import String.
 From TS Require Import Model.Str Model.Unicode Model.Syntax Model.Attrs Spec.Serde Spec.TargetOsRule Spec.C03Spec.
-
-Definition cls7 (s:string) : option string := Some s.
 
 Definition NEEDS_ONE : list str :=
   [lit "Vec"; lit "Option"; lit "Box"; lit "Weak"; lit "Arc"; lit "Rc"; lit "Cow"; lit "ArcWeak"; lit "RcWeak";
@@ -14,95 +19,72 @@ Definition count_type_args (args : list (option ty)) : nat :=
   List.length (filter (fun o => match o with Some _ => true | None => false end) args).
 
 (* every Vec / Option / smart pointer has a type argument and every HashMap two, at every depth
-   (rust_types.rs:366-383 unwrap them) *)
-Fixpoint ty_safe (t : ty) : bool :=
+   (lifetime and const arguments do not count) *)
+Fixpoint ty_complete (t : ty) : bool :=
   match t with
   | TPath _ id args =>
     (fix go (l : list (option ty)) : bool :=
-       match l with [] => true | None :: r => go r | Some x :: r => ty_safe x && go r end) args &&
+       match l with [] => true | None :: r => go r | Some x :: r => ty_complete x && go r end) args &&
     (if mem_str id NEEDS_ONE then Nat.leb 1 (count_type_args args)
      else if str_eqb id (lit "HashMap") then Nat.leb 2 (count_type_args args) else true)
-  | TRef x | TSlice x | TArray x _ => ty_safe x
+  | TRef x | TSlice x | TArray x _ => ty_complete x
   | TTuple _ | TOther => true
   end.
-
-(* first character that is not an underscore *)
-Fixpoint first_significant (s : str) : option char :=
-  match s with [] => None | c :: r => if c =? ch_us then first_significant r else Some c end.
 
 Section U.
 Variable uc : unicode.
 Variable tstr : str -> option ty.
 Variable T : list str.
 
-(* rename.rs:22 slices the first BYTE of the PascalCase form: safe iff the identifier has a
-   non-underscore character and the first such character is ASCII - only camelCase does this *)
-Definition rename_safe (rule : option str) (ident : str) : bool :=
-  match rule with
-  | Some r => if str_eqb r (lit "camelCase") then
-                match first_significant ident with Some c => c <? 128 | None => false end
-              else true
-  | None => true
-  end.
-
-Definition the_rule (attrs : list attr) : option str := serde_rename_all uc attrs.
-Definition ident_of (i : option str) : str :=
-  match i with Some x => replace_sub (lit "r#") [] x | None => lit "???" end.
-
-Definition effective_ty_safe (attrs : list attr) (declared : ty) : bool :=
+(* the type typeshare is told to use: a serialized_as string wins over the declared type (a string
+   that is not a type is another error, not this class) *)
+Definition effective_ty_complete (attrs : list attr) (declared : ty) : bool :=
   match get_serialized_as_type uc attrs with
-  | Some s => match tstr s with Some t => ty_safe t | None => true end
-  | None => ty_safe declared
+  | Some s => match tstr s with Some t => ty_complete t | None => true end
+  | None => ty_complete declared
   end.
-
-(* parser.rs:737: a nested typeshare(..) list on a field whose name is not a language *)
-Definition lang_name_ok (name : str) : bool :=
-  let l := str_to_lowercase uc name in
-  mem_str l [lit "go"; lit "kotlin"; lit "scala"; lit "swift"; lit "typescript"; lit "python"].
-Definition decorators_safe (attrs : list attr) : bool :=
-  forallb (fun a => forallb (fun m => match m with MList [name] _ _ => lang_name_ok name | _ => true end)
-                            (get_meta_items a TYPESHARE)) attrs.
 
 Definition skipped7 (attrs : list attr) : bool := skip_marked attrs || negb (os_rule attrs T).
 
-Definition field_safe (rule : option str) (f : field) : bool :=
-  skipped7 (f_attrs f) ||
-  (effective_ty_safe (f_attrs f) (f_ty f) && decorators_safe (f_attrs f) && rename_safe rule (ident_of (f_ident f))).
+Definition field_complete (f : field) : bool :=
+  skipped7 (f_attrs f) || effective_ty_complete (f_attrs f) (f_ty f).
 
-Definition variant_safe (enum_rule : option str) (v : variant) : bool :=
+Definition variant_complete (v : variant) : bool :=
   skipped7 (v_attrs v) ||
-  (rename_safe enum_rule (ident_of (Some (v_ident v))) &&
-   match v_fields v with
-   | FUnit => true
-   | FUnnamed [] => false                               (* parser.rs:445 *)
-   | FUnnamed [f] => effective_ty_safe (f_attrs f) (f_ty f)
-   | FUnnamed _ => true                                 (* rejected with an error before anything else *)
-   | FNamed l => forallb (field_safe (the_rule (v_attrs v))) l
-   end).
+  match v_fields v with
+  | FUnit => true
+  | FUnnamed [] => false                               (* `V()`: parser.rs:445 before the fix *)
+  | FUnnamed [f] => effective_ty_complete (f_attrs f) (f_ty f)
+  | FUnnamed _ => true                                 (* rejected for another reason (C08) *)
+  | FNamed l => forallb field_complete l
+  end.
 
-Definition leaf_safe (it : item) : bool :=
+Definition leaf_complete (it : item) : bool :=
   match it with
   | IStruct attrs _ _ fs =>
     match get_serialized_as_type uc attrs with
-    | Some s => match tstr s with Some t => ty_safe t | None => true end
+    | Some s => match tstr s with Some t => ty_complete t | None => true end
     | None =>
       match fs with
-      | FNamed l => forallb (field_safe (the_rule attrs)) l
-      | FUnnamed [] => false                            (* parser.rs:287 *)
-      | FUnnamed [f] => effective_ty_safe (f_attrs f) (f_ty f)
+      | FNamed l => forallb field_complete l
+      | FUnnamed [] => false                            (* `struct S();`: parser.rs:287 before the fix *)
+      | FUnnamed [f] => effective_ty_complete (f_attrs f) (f_ty f)
       | FUnnamed _ => true
       | FUnit => true
       end
     end
   | IEnum attrs _ _ vs =>
     match get_serialized_as_type uc attrs with
-    | Some s => match tstr s with Some t => ty_safe t | None => true end
-    | None => forallb (variant_safe (the_rule attrs)) vs
+    | Some s => match tstr s with Some t => ty_complete t | None => true end
+    | None => forallb variant_complete vs
     end
-  | IType attrs _ _ t => effective_ty_safe attrs t
-  | IConst attrs _ t _ => effective_ty_safe attrs t
+  | IType attrs _ _ t => effective_ty_complete attrs t
+  | IConst attrs _ t _ => effective_ty_complete attrs t
   | _ => true
   end.
 
-Definition front_safe (f : file) : bool := forallb leaf_safe (expected_leaves T f).
+(* number of expected leaves of the file that must be diagnosed for this reason *)
+Definition front_incomplete_leaves (f : file) : nat :=
+  List.length (filter (fun it => negb (leaf_complete it)) (expected_leaves T f)).
+Definition front_complete (f : file) : bool := forallb leaf_complete (expected_leaves T f).
 End U.
